@@ -62,6 +62,7 @@ class Scte35Events(RepeatingEventBase):
         pts = presentation_time * MPEG_TIMEBASE // self.timescale
         pts &= 0x1FFFFFFFF  # PTS field is 33 bits
         duration = self.duration * MPEG_TIMEBASE // self.timescale
+        duration = min(duration, 0x1FFFFFFFF)  # break_duration is a 33 bit field
         # auto_return is True for the OUT and False for the IN
         auto_return = (event_id & 1) == 0
         if self.count > 0:
